@@ -78,3 +78,15 @@ Theorem export_law_refuted :
 Proof. split. exact witness_ok. exact export_differs_lemma. Qed.
 Print Assumptions export_law_refuted.
 
+
+(* tie to the current /repo (read from the source with ast on every run): the native writer pads every species name to 12
+   columns in 3 + 5 slots, the index to 5, prints the coefficients with 10.3e and the window with 9.2f, the type code in 4 and
+   the source tag in 8 columns, separated by commas - the layout the model's writer and the round-trip theorems are about *)
+From NaunetGen Require Import Tables.
+Theorem live_native_layout :
+  native_format_specs =
+    [("''", ">12"); ("x", ">12"); ("x", ">12"); ("self.idxfromfile", "<5"); ("self.alpha", "10.3e"); ("self.beta", "10.3e");
+     ("self.gamma", "10.3e"); ("self.temp_min", "9.2f"); ("self.temp_max", "9.2f"); ("self.reaction_type", ">4"); ("self.source", ">8")]%string /\
+  native_fill_slots = [3; 5]%nat /\ native_separators = [","%string].
+Proof. repeat split; reflexivity. Qed.
+Print Assumptions live_native_layout.
